@@ -58,7 +58,7 @@ PageIn(os, p) ==
   IF p.ser # os.ser THEN os
   ELSE LET pp == PagePackets(p)
            qq == IF p.cont /\ os.fresh /\ pp # <<>> THEN Tail(pp) ELSE pp
-       IN [os EXCEPT !.q = @ \o qq, !.fresh = FALSE]
+       IN [os EXCEPT !.q = @ \o qq, !.fresh = (os.fresh /\ p.cont /\ pp = <<>>)]          \* (a page in the middle of a packet the stream never saw the beginning of leaves it as it was)
 OsPop(os) == IF os.q = <<>> THEN os ELSE [os EXCEPT !.q = Tail(@), !.pno = @ + 1]                         \* ogg_stream_packetout(os, NULL)
 
 (* ------------------------------ the reader ------------------------------ *)
@@ -164,7 +164,7 @@ RawScan(PG, LT, BL, vf, lc, seekpos, fuel) ==
                     IF lk = 0 THEN RawScan(PG, LT, BL, v2, lc2, seekpos, fuel - 1)
                     ELSE LET v3 == [v2 EXCEPT !.link = lk, !.ser = p.ser, !.rs = STREAMSET, !.os = PageIn(OsReset(p.ser), p)]
                              wos == PageIn(OsReset(p.ser), p)
-                         IN RawScan(PG, LT, BL, v3, [lc2 EXCEPT !.wq = wos.q, !.wfresh = FALSE, !.firstflag = (seekpos <= LT[lk].doff), !.lastflag = p.eos], seekpos, fuel - 1)
+                         IN RawScan(PG, LT, BL, v3, [lc2 EXCEPT !.wq = wos.q, !.wfresh = wos.fresh, !.firstflag = (seekpos <= LT[lk].doff), !.lastflag = p.eos], seekpos, fuel - 1)
                ELSE \* the page goes to both streams (each refuses a foreign serial number); lastflag follows whatever page was read
                     LET wos == PageIn([ser |-> v2.ser, q |-> lc2.wq, pno |-> 0, fresh |-> lc2.wfresh], p) IN
                     RawScan(PG, LT, BL, [v2 EXCEPT !.os = PageIn(@, p)], [lc2 EXCEPT !.wq = wos.q, !.wfresh = wos.fresh, !.lastflag = p.eos], seekpos, fuel - 1)
